@@ -294,7 +294,7 @@ func c04VacuumPurge(c *Ctx) {
 					}
 				}
 				if cl, ok := in.(ssa.CallInstruction); ok && an.CalleeIs(cl, kvPkg, "DB", "RemoveTombstones") {
-					if !st.carries(cl.Common().Args[2]) {
+					if !st.carries(cl.Common().Args[2]) && !st.carries(sc.ArgOfParam(cl.Common().Args[2])) {
 						st.helpers = "unsafe"
 					}
 				}
